@@ -239,6 +239,25 @@ def run_fitlinear(part, unit):
             if c4.shape != c1.shape or np.max(np.abs(c4 - amp * c1)) > 1e-5 * amp * max(1.0, np.max(np.abs(c1))):   # iterative solver, finite-difference Jacobian
                 part.violation(PID, 'fit-linear-in-data', 'ZernikeFit', f'family={fam},N={N}', dict(set=sname, amplitude=amp), observed=c4[:6],
                                expected=(amp * c1)[:6], tol=1e-5)
+        # the same samples handed over as 2-D (gridded) arrays, in either memory layout: a sample is (x[i,j], y[i,j], z[i,j])
+        n_ = len(x)
+        a_ = next((d for d in range(int(math.isqrt(n_)), 1, -1) if n_ % d == 0), None)
+        if a_:
+            shp = (a_, n_ // a_)
+            asF = lambda v: np.asfortranarray(v.reshape(shp))      # noqa: E731  same logical array, column-major memory
+            asC = lambda v: np.ascontiguousarray(v.reshape(shp))   # noqa: E731
+            for lname, fx, fz in (('C/C', asC, asC), ('F/C', asF, asC), ('C/F', asC, asF), ('F/F', asF, asF)):
+                try:
+                    f5 = ZernikeFit(fx(x.copy()), fx(y.copy()), fz(z1.copy()), fam, N)
+                    c5 = np.asarray(f5.coeffs, dtype=float)
+                except Exception as exc:   # 2-D input not accepted at all: nothing to compare
+                    part.count('gridded-input-not-accepted')
+                    break
+                part.transitions += 1
+                part.count('cmp:gridded-layouts')
+                if c5.shape != c1.shape or np.max(np.abs(c5 - c1)) > 1e-7 * max(1.0, np.max(np.abs(c1))):
+                    part.violation(PID, 'fit-independent-of-array-shape-and-memory-layout', 'ZernikeFit', f'family={fam},N={N}',
+                                   dict(set=sname, shape=list(shp), layout_xy_z=lname), observed=c5[:6], expected=c1[:6], tol=1e-7)
         # the fit is the least-squares solution: residual orthogonal to every fitted term
         A = design(fam, N, x, y)
         res = z1 - A @ c1
